@@ -23,6 +23,8 @@ pub enum Op {
     /// whence: 0 start, 1 current, 2 end
     Seek { h: usize, whence: u8, off: i64 },
     Truncate { h: usize },
+    /// enumerate File::extents() of an open file (non-mutating)
+    Extents { h: usize },
     Flush { h: usize },
     Close { h: usize },
     /// which: 0 created, 1 modified, 2 accessed; raw (date word, time word, tenths)
@@ -62,6 +64,7 @@ impl Op {
             Op::Write { .. } => "write",
             Op::Seek { .. } => "seek",
             Op::Truncate { .. } => "truncate",
+            Op::Extents { .. } => "extents",
             Op::Flush { .. } => "flush",
             Op::Close { .. } => "close",
             Op::SetTimes { .. } => "set_times",
@@ -85,6 +88,7 @@ impl Op {
             Op::Write { h, len } => format!("h{}.write({})", h, len),
             Op::Seek { h, whence, off } => format!("h{}.seek({}({}))", h, ["Start", "Current", "End"][*whence as usize % 3], off),
             Op::Truncate { h } => format!("h{}.truncate()", h),
+            Op::Extents { h } => format!("h{}.extents()", h),
             Op::Flush { h } => format!("h{}.flush()", h),
             Op::Close { h } => format!("drop(h{})", h),
             Op::SetTimes { h, which, date, time, tenth } => format!("h{}.set_{}({:#06x},{:#06x},{})", h, ["created", "modified", "accessed"][*which as usize % 3], date, time, tenth),
